@@ -93,7 +93,9 @@ def to_argv(v, outdir, rng=None):
     if rng is not None:
         r = rng.random()
         for c in chunks:
-            if c[0] == '-o' and r < 0.06:
+            if c[0] == '-o' and outdir.startswith(os.path.join(tempfile.gettempdir(), '~') + os.sep):
+                c[1] = os.path.relpath(outdir, tempfile.gettempdir())         # '~/gen_x/instances': a directory called '~'
+            elif c[0] == '-o' and r < 0.06:
                 c[1] = outdir + '/'                                           # trailing separator
             elif c[0] == '-o' and r < 0.12:
                 c[1] = os.path.relpath(outdir, tempfile.gettempdir())         # relative to the working directory (run_generator)
@@ -328,11 +330,26 @@ def fresh_outdir(workdir, tag):
     _OUTDIR_CALLS[0] += 1
     k = _OUTDIR_CALLS[0]
     frag = HOSTILE_NAMES[(k // 6) % len(HOSTILE_NAMES)]
-    if k % 12 == 5:
+    if k % 12 == 8:
+        # a RELATIVE name that begins with '~' (not a home directory: it is a directory of that name in the working
+        # directory of the run, which run_generator sets to the worker's temporary directory)
+        top = os.path.join(tempfile.gettempdir(), '~', 'gen_%s' % tag)      # spelled '~/gen_x/instances'
+        shutil.rmtree(top, ignore_errors=True)
+        kind, d = 'relative_name_beginning_with_tilde', os.path.join(top, 'instances')
+    elif k % 12 == 5:
         kind, d = 'hostile_parent_name', os.path.join(top, frag, 'instances')
     elif k % 12 == 11:
         kind, d = 'hostile_directory_name', os.path.join(top, 'hr' + frag)
     else:
         kind, d = 'plain', os.path.join(top, 'instances')
     OUTDIR_SPELLINGS[kind] = OUTDIR_SPELLINGS.get(kind, 0) + 1
+    _TOPS[d] = os.path.join(tempfile.gettempdir(), '~') if kind == 'relative_name_beginning_with_tilde' else top
     return d
+
+
+_TOPS = {}
+
+
+def top_of(outdir):
+    """The directory fresh_outdir() reserved for this output directory (everything a run creates lies in it)."""
+    return _TOPS.get(outdir, os.path.dirname(outdir))
